@@ -6,8 +6,8 @@ import (
 	"slices"
 	"sort"
 	"strings"
-	"time"
 
+	"github.com/nyaruka/gocommon/jsonx"
 	"github.com/nyaruka/goflow/assets"
 	"github.com/nyaruka/goflow/envs"
 	"github.com/nyaruka/goflow/excellent/types"
@@ -202,6 +202,20 @@ func (f FieldValues) Set(field *Field, value *Value) {
 	f[field.Key()] = fv
 }
 
+// returns the datetime as it will be when read back from its marshalled form (which has microsecond precision and a zone
+// offset rather than a zone), so that a value behaves the same before and after the contact has been persisted
+func asStored(dt *types.XDateTime) *types.XDateTime {
+	marshaled, err := jsonx.Marshal(dt)
+	if err != nil {
+		return dt
+	}
+	stored := &types.XDateTime{}
+	if err := jsonx.Unmarshal(marshaled, stored); err != nil {
+		return dt
+	}
+	return stored
+}
+
 // Parse parses a raw string field value into the different possible types
 func (f FieldValues) Parse(env envs.Environment, fields *FieldAssets, field *Field, rawValue string) *Value {
 	if rawValue == "" {
@@ -217,9 +231,7 @@ func (f FieldValues) Parse(env envs.Environment, fields *FieldAssets, field *Fie
 	}
 
 	if parsedDate, xerr := types.ToXDateTimeWithTimeFill(env, asText); xerr == nil {
-		// values are marshalled (in the contact and in contact_field_changed events) with microseconds, so anything
-		// finer can't be kept: otherwise the value differs from what is announced and from itself once read back
-		asDateTime = types.NewXDateTime(parsedDate.Native().Truncate(time.Microsecond))
+		asDateTime = asStored(parsedDate)
 	}
 
 	var asLocation *envs.Location
